@@ -139,6 +139,11 @@ def native_replay(hb, ll, entry, inputs, outdir, tag):
     rc, so, se, dt = P.run([exe], timeout=120, env=env)
     failed = [f for f in re.findall(r'^REPLAY-ASSERT-FAILED: (.*)$', so + se, re.M) if not f.startswith('WITNESS:')]
     if 'REPLAY-ASSUME-FAILED' in so + se:
+        if failed:
+            # the runtime reports assertions only up to the first failing assumption: these failed BEFORE it, which is a
+            # violation in CBMC's semantics too (a trace ends at its assertion; later inputs are absent, e.g. when one entry
+            # runs several harness bodies in sequence)
+            return 'reproduced', failed, 'assertion failed before the first failing assumption: ' + (so + se)[-600:]
         return 'inconsistent', failed, 'an assumption of the harness does not hold under the replayed inputs'
     if rc not in (0, 1):
         return 'crash', failed, 'native run ended with status %d: %s' % (rc, (so + se)[-700:])
